@@ -23,6 +23,11 @@ type GenOpts struct {
 	RerunPct   int  // chance that a tag node of a level with state asks for InterruptAndRerun
 	IntPct     int  // chance per node of being an interrupt-before / interrupt-after point
 	FirstBias  bool // extra weight on the direct successors of START as interrupt-before points
+
+	// input / output keys (compose.WithInputKey / WithOutputKey) on tag nodes. No random draw is made
+	// when KeyPct is 0, so the cases of the families without keys are what they were.
+	KeyPct  int  // chance per tag node of an output key, and (independently) of an input key
+	KeyBias bool // make the input-keyed nodes pending tasks of a checkpoint: interrupt-before on the node, interrupt-after on a predecessor, or the node asks for a rerun
 }
 
 func has(edges [][2]string, a, b string) bool {
@@ -42,7 +47,135 @@ func has(edges [][2]string, a, b string) bool {
 func Gen(r *vh.Rand, o GenOpts) *Graph {
 	g := genShape(r, o)
 	decorate(r, o, g)
+	assignKeys(r, o, g)
 	return g
+}
+
+// predsOf: the nodes (or "start") with an edge or a branch end to key.
+func predsOf(g *Graph, key string) []string {
+	var out []string
+	for _, e := range g.Edges {
+		if e[1] == key && !contains(out, e[0]) {
+			out = append(out, e[0])
+		}
+	}
+	for _, b := range g.Branches {
+		if contains(b.Ends, key) && !contains(out, b.From) {
+			out = append(out, b.From)
+		}
+	}
+	return out
+}
+
+func nodeOf(g *Graph, key string) *Node {
+	for i := range g.Nodes {
+		if g.Nodes[i].Key == key {
+			return &g.Nodes[i]
+		}
+	}
+	return nil
+}
+
+// outKeysOf: the key a predecessor's output is known to carry ("" when it depends on the run:
+// pass-through and graph nodes).
+func outKeyOf(g *Graph, key string) string {
+	if key == "start" {
+		return "in"
+	}
+	n := nodeOf(g, key)
+	if n == nil || n.Body.Op != "tag" {
+		return ""
+	}
+	if n.Post || n.OutKey == "" {
+		return n.Key // the post-handler renames the output to {node key: ...}
+	}
+	return n.OutKey
+}
+
+// assignKeys gives some tag nodes of one level an output key and/or an input key. An input key is
+// one the node's input is likely to carry: "p" under a state pre-handler (which rebuilds the input
+// as {"p": ...}), else the output key of one of its predecessors; rarely a missing one (the
+// framework's error). With KeyBias the input-keyed nodes are then made pending tasks of a checkpoint.
+func assignKeys(r *vh.Rand, o GenOpts, g *Graph) {
+	if o.KeyPct <= 0 {
+		return
+	}
+	for i := range g.Nodes {
+		n := &g.Nodes[i]
+		if n.Body.Op == "tag" && r.Chance(o.KeyPct) {
+			n.OutKey = fmt.Sprintf("k%d", r.Intn(4))
+		}
+	}
+	for i := range g.Nodes {
+		n := &g.Nodes[i]
+		if n.Body.Op != "tag" || !r.Chance(o.KeyPct) {
+			continue
+		}
+		var cands []string
+		preds := predsOf(g, n.Key)
+		if !n.Pre && g.State && len(preds) > 1 && r.Chance(60) {
+			// several predecessors: which of their keys arrive depends on the run (any-predecessor
+			// trigger, branches); under a pre-handler the input is always {"p": ...}
+			n.Pre = true
+		}
+		if n.Pre {
+			cands = []string{"p"}
+		} else {
+			for _, p := range preds {
+				if k := outKeyOf(g, p); k != "" && !contains(cands, k) {
+					cands = append(cands, k)
+				}
+			}
+		}
+		switch {
+		case len(cands) == 0:
+			if r.Chance(25) {
+				n.InKey = "missing"
+			}
+		case r.Chance(6):
+			n.InKey = "missing"
+		default:
+			n.InKey = cands[r.Intn(len(cands))]
+		}
+	}
+	if !o.KeyBias {
+		return
+	}
+	for i := range g.Nodes {
+		n := &g.Nodes[i]
+		if n.InKey == "" || !r.Chance(65) {
+			continue
+		}
+		how := r.Intn(3)
+		if how == 1 {
+			var ps []string
+			for _, p := range predsOf(g, n.Key) {
+				if p != "start" {
+					ps = append(ps, p)
+				}
+			}
+			if len(ps) > 0 {
+				if p := ps[r.Intn(len(ps))]; !contains(g.IntAfter, p) {
+					g.IntAfter = append(g.IntAfter, p)
+				}
+				continue
+			}
+			how = 0
+		}
+		if how == 2 && n.Body.Rerun == 0 {
+			// a rerun-requesting keyed node: its pending input is the zero value, rebuilt by the pre-handler
+			g.State = true
+			n.Body.Rerun = 1
+			n.Pre = true
+			if n.InKey != "missing" {
+				n.InKey = "p"
+			}
+			continue
+		}
+		if !contains(g.IntBefore, n.Key) {
+			g.IntBefore = append(g.IntBefore, n.Key)
+		}
+	}
 }
 
 func genShape(r *vh.Rand, o GenOpts) *Graph {
@@ -277,6 +410,7 @@ func contains(l []string, k string) bool {
 // Features summarises what a case exercises (for the coverage key / distribution).
 type Features struct {
 	Before, After, Rerun, NestedInt, State, Handlers, FirstBefore int
+	InKeyed, OutKeyed, MissingKey                                int
 }
 
 func Feat(g *Graph, nested bool, f *Features) {
@@ -306,6 +440,15 @@ func Feat(g *Graph, nested bool, f *Features) {
 		n := &g.Nodes[i]
 		if n.Pre || n.Post {
 			f.Handlers++
+		}
+		if n.InKey != "" {
+			f.InKeyed++
+			if n.InKey == "missing" {
+				f.MissingKey++
+			}
+		}
+		if n.OutKey != "" {
+			f.OutKeyed++
 		}
 		if n.Body.Rerun > 0 {
 			f.Rerun++
